@@ -164,6 +164,9 @@ def equity_sessions(rng, tier):
                     tally['quote'] -= q_ * p_
                     tally['base'][self_.symbol] = tally['base'].get(self_.symbol, 0.0) + q_ * (1 - fee_rate)
                 else:
+                    # a cash account cannot deliver more base than it holds: a sell that fills after another resting sell already sold the
+                    # position (the STOP and the LIMIT exit both resting for the full size) delivers what is left
+                    q_ = min(q_, max(tally['base'].get(self_.symbol, 0.0), 0.0))
                     tally['quote'] += q_ * p_ * (1 - fee_rate)
                     tally['base'][self_.symbol] = tally['base'].get(self_.symbol, 0.0) - q_
         Order.execute = exec_tally
